@@ -396,6 +396,83 @@ func model_os_Create(name string) (*os.File, error) {
 	return f, nil
 }
 
+// model_os_OpenFile: the flag combinations os.Open / os.Create / typical callers use.
+func model_os_OpenFile(name string, flag int, perm fs.FileMode) (*os.File, error) {
+	acc := flag & (os.O_RDONLY | os.O_WRONLY | os.O_RDWR)
+	if flag&os.O_CREATE == 0 && acc == os.O_RDONLY {
+		return model_os_Open(name)
+	}
+	p, idx, e := vResolve(name, true, 0)
+	if e != 0 {
+		return nil, vErr("open", name, e)
+	}
+	if idx == -1 && flag&os.O_CREATE == 0 {
+		return nil, vErr("open", name, vENOENT)
+	}
+	if idx != -1 && flag&os.O_CREATE != 0 && flag&os.O_EXCL != 0 {
+		return nil, vErr("open", name, vEEXIST)
+	}
+	if len(name) > 0 && name[len(name)-1] == '/' {
+		return nil, vErr("open", name, vEISDIR)
+	}
+	if idx == -2 || (idx >= 0 && vNodes[idx].kind == vDir) {
+		return nil, vErr("open", name, vEISDIR)
+	}
+	if idx >= 0 && vNodes[idx].kind == vFifo {
+		vBlocked = true
+		return nil, vErr("open", name, vEINTR)
+	}
+	if idx >= 0 {
+		if flag&os.O_TRUNC != 0 {
+			vNodes[idx].data = ""
+			vNodes[idx].mtime = vNowSec
+			vLog = append(vLog, vMut{"truncate", vCopy(p)})
+		} else {
+			vLog = append(vLog, vMut{"open-for-write", vCopy(p)})
+		}
+	} else {
+		vAdd(vNode{segs: vCopy(p), kind: vFile, perm: uint32(perm) & 0777, mtime: vNowSec}, "create")
+	}
+	f := new(os.File)
+	h := &vHandle{segs: vCopy(p), write: true}
+	if flag&os.O_APPEND != 0 {
+		if i := vFind(p); i >= 0 {
+			h.pos = len(vNodes[i].data)
+		}
+	}
+	vHandles[f] = h
+	return f, nil
+}
+
+// vWriteAt: write through a handle at its position (overwrites, extends).
+func vWriteAt(h *vHandle, body string) {
+	idx := vFind(h.segs)
+	if idx < 0 {
+		return
+	}
+	d := vNodes[idx].data
+	for len(d) < h.pos {
+		d += "\x00"
+	}
+	end := h.pos + len(body)
+	tail := ""
+	if end < len(d) {
+		tail = d[end:]
+	}
+	vNodes[idx].data = d[:h.pos] + body + tail
+	vNodes[idx].mtime = vNowSec
+	h.pos = end
+}
+
+func model_os_File_Write(f *os.File, b []byte) (int, error) {
+	h := vHandles[f]
+	if h == nil || h.closed || !h.write {
+		return 0, vErr("write", "", vEBADF)
+	}
+	vWriteAt(h, string(b))
+	return len(b), nil
+}
+
 func model_os_File_Close(f *os.File) error {
 	if f == nil {
 		return vErr("close", "", vEINVAL)
